@@ -128,6 +128,8 @@ CLAIMED["C05"] = {
 CLAIMED["C15"] = {
     "text": "For every model and every option setting it is proved that the MILP bridge never returns a solution from an interrupted search (the call is an error), labels a solution Optimal only if the library proved optimality within the requested gap, "
             "keeps a feasible-but-unproven incumbent labelled Feasible, forwards the gap unchanged, and returns an error for a negative or non-finite gap (rejected by the library). "
+            "BOUNDED (labelled): the statement itself is executed on the real bridge over 24 knapsack-like models x 7 gap settings x 4 time limits (feasibility of every returned point, Optimal only within the gap of the unlimited optimum, invalid gaps rejected); "
+            "a relabelling that needs the time limit to fire in mid-search is timing-dependent and outside what this grid can show. "
             "NOT decided: what the library does inside its time limit (assumed contract); the good_lp status mapping.",
     "note": _LIB,
     "technique": "Verus postconditions relating LpSolution.status to the ghost Solution status on the extracted solve_milp_lp_problem_with",
